@@ -145,6 +145,21 @@ theorem c18_index_hash_total (path : Bytes) : ¬ faults (C18Arc.hashSplit path) 
 theorem c18_index_hash_unfixed_witness : faults (C18Arc.hashSplitUnfixed [0x61]) :=
   faults_of_isFault (by decide)
 
+/-- `SqPackIndex::exists` / `find_entry` on a parsed index, for every ASCII path -/
+theorem c18_index_exists_total (ix : C18Arc.Index) (path : Bytes) : ¬ faults (C18Arc.existsAscii ix path) :=
+  (C18Arc.existsAscii_good 0 ix path).1
+
+/-- the `parse_repository_category(path).unwrap()` in `GameData::get_dat_file` is unreachable: `extract`
+only gets there after `find_entry` has evaluated the same pure call with `?`.  With a dat reader that
+is good (`c18_dat_total`, `c18_dat_alloc`), the whole flow of `extract` is. -/
+theorem c18_gamedata_extract_flow {R E D : Type} (B : Nat) (parse : Option R) (findEntry : R → Option E)
+    (openDat : R → E → Option D) (read : D → E → Res Unit) (hr : ∀ d e, Good B (read d e)) :
+    Good B (C18Arc.extractFlow parse findEntry openDat read) :=
+  C18Arc.extractFlow_good B parse findEntry openDat read hr
+example : Good 0 (C18Arc.extractFlow (some 1) (fun _ => some 2) (fun _ _ => some 3)
+    (fun _ _ => (Res.ok () : Res Unit))) :=
+  c18_gamedata_extract_flow 0 _ _ _ _ (fun _ _ => good_ok _ _)
+
 /-- repository discovery (`reload_repositories` + `from_existing_expansion`), repaired by
 `fixes/C18-09`: every directory name (any bytes) is a repository or is skipped -/
 theorem c18_repo_total (name : Bytes) : ¬ faults (C18Arc.expansionNumber name) :=
